@@ -273,7 +273,7 @@ def verdict(res):
 def warm(repo='/repo'):
     """compile the hooked crates for Kani once (codegen only) so that later checks start fast"""
     ensure_gen(repo)
-    for crate in ('toml_edit', 'toml_datetime', 'toml'):
+    for crate in ('toml_edit', 'toml_datetime', 'toml', 'toml_write'):
         cmd = ['cargo', 'kani', '-p', pkgspec(crate, repo), '--target-dir', TARGET_DIR, '--only-codegen',
                '-Z', 'function-contracts', '-Z', 'stubbing']
         if FEATURES.get(crate):
